@@ -81,12 +81,20 @@ def cases(tier, seed):
                     if fmt == "nested-blocks" and dg != "indices":
                         continue
                     out.append(dict(kind="format", base=b, k=1, fmt=fmt, vtype=vt, desig=dg, seed=seed, tiny=True))
+        # non-integer energies with a user-supplied atol = 1e-6: every format must use the energies as given
+        for fmt in ("list", "dict-tuples", "nested-blocks", "scalar-series", "block-series"):
+            for vt in ("dense", "csr"):
+                out.append(dict(kind="format", base=b, k=1, fmt=fmt, vtype=vt, desig="indices", seed=seed, frac=True))
         for basis in ("perm", "rot-deg", "cayley", "cayley-sparse", "unimodular-RL"):
             for vt in ("dense", "csr", "sympy"):
                 out.append(dict(kind="eigenbasis", base=b, k=1, basis=basis, vtype=vt, seed=seed))
         for vt in ("dense", "csr", "sympy"):
             for dg in ("indices", "eigvec", "pairs", "implicit"):
                 out.append(dict(kind="op2bs", base=b, vtype=vt, desig=dg, seed=seed))
+    for N in (12, 24, 40):
+        for nsub in (2, 3):
+            for herm in (True, False):
+                out.append(dict(kind="interleaved", N=N, nsub=nsub, hermitian=herm, seed=seed))
     for fn in ("cos-exp", "rational", "sqrt"):
         for b in ("h21", "n21"):
             out.append(dict(kind="analytic", base=b, fn=fn, seed=seed))
@@ -237,6 +245,20 @@ def run_format(case):
     h0 = np.diag(np.array(BASES[case["base"]]["E"], dtype=float))
     cv = lambda m: conv_value(m, vt)  # noqa: E731
     kwargs = dict(hermitian=herm)
+    if case.get("frac"):
+        # energies with digits below the (loosened) tolerance; reference = sparse dict input, which is used as given
+        Ef = np.array(BASES[case["base"]]["E"], dtype=float)
+        lv = {}
+        for a, e in enumerate(Ef):
+            lv.setdefault(e, len(lv))
+        Ef = Ef + np.array([0.123456789 * (lv[e] + 1) * 1e-3 for e in Ef])
+        h0 = np.diag(Ef)
+        kwargs["atol"] = 1e-6
+        from scipy import sparse as _sp
+
+        ref_outs = block_diagonalize({z: _sp.csr_array(h0), **{o: _sp.csr_array(np.array(m, dtype=complex)) for o, m in values.items()}},
+                                     subspace_indices=block_of(cfg["sizes"]), hermitian=herm, atol=1e-6)
+        can = collect(ref_outs, cfg, k, total, False)
     strip = None
     exact = vt == "sympy"
     syms = sympy.symbols("x y z", real=True)[:k]
@@ -529,3 +551,41 @@ def run_analytic(case):
     V = []
     compare(got, can, True, f"analytic {case['fn']}", V)
     return V, nontrivial_of(can)
+
+
+def run_interleaved(case):
+    """Many states with interleaved subspace labels: subspace_indices must select the states of
+    each block in ascending order, exactly like the identity-column eigenvector matrices."""
+    from pymablock import block_diagonalize, operator_to_BlockSeries
+    from pymablock.series import zero
+
+    N, nsub, herm = case["N"], case["nsub"], case["hermitian"]
+    rng = np.random.default_rng([case["seed"], N, nsub, 77])
+    labels = np.array([(i * 7 + (i // 3)) % nsub for i in range(N)])
+    E = np.array([10.0 * labels[i] + 0.37 * i for i in range(N)])
+    A = rng.integers(-3, 4, (N, N)) + 1j * rng.integers(-3, 4, (N, N))
+    h1 = (A + A.conj().T) if herm else A.astype(complex)
+    eye = np.eye(N)
+    vecs = [eye[:, labels == b] for b in range(nsub)]
+    V = []
+    bs = operator_to_BlockSeries([np.diag(E), h1], subspace_indices=labels, hermitian=herm)
+    for i in range(nsub):
+        for j in range(nsub):
+            for n, m in ((0, np.diag(E)), (1, h1)):
+                got = bs[i, j, n]
+                want = vecs[i].conj().T @ m @ vecs[j]
+                g = np.zeros_like(want, dtype=complex) if got is zero else (got.toarray() if hasattr(got, "toarray") else np.asarray(got))
+                if g.shape != want.shape or np.abs(g - want).max() > 1e-12:
+                    V.append(f"operator_to_BlockSeries(subspace_indices) block ({i},{j},{n}) is not L_i† A R_j for the ascending states of each label")
+    a = block_diagonalize([np.diag(E), h1], subspace_indices=labels, hermitian=herm)
+    b = block_diagonalize([np.diag(E), h1], subspace_eigenvectors=vecs, hermitian=herm)
+    for name, sa, sb in zip(("H_tilde", "U", "U_inv"), a, b):
+        for n in (1, 2):
+            for i in range(nsub):
+                for j in range(nsub):
+                    x, y = sa[i, j, n], sb[i, j, n]
+                    if (x is zero) != (y is zero):
+                        V.append(f"{name}[{i},{j},{n}]: zero sentinel mismatch between indices and eigenvectors")
+                    elif x is not zero and np.abs(np.asarray(x) - np.asarray(y)).max() > 1e-9 * max(1.0, np.abs(np.asarray(y)).max()):
+                        V.append(f"{name}[{i},{j},{n}] differs between subspace_indices and the identity-column eigenvectors")
+    return V[:3], True
